@@ -289,13 +289,28 @@ func c16R4(c *Ctx) {
 			}
 			n++
 			okArg := false
+			why := "something other than the frame built by view() is handed to the terminal: its height is not that of the terminal"
 			if len(cc.Args) == 1 {
 				if call, ok := unwrapLoad(cc.Args[0]).(*ssa.Call); ok && call.Call.StaticCallee() == view && len(call.Call.Args) == 1 {
 					okArg = path(call.Call.Args[0]) == path(fa.X)
+					// … and it is written at once: nothing is called between building the
+					// frame and writing it (an Unlock in between lets a resize slip in, and
+					// the stale frame of the old height is the one that stays on the screen)
+					if okArg {
+						if call.Block() != in.Block() {
+							okArg, why = false, "the frame is built in one place and written in another: a resize in between leaves a frame of the old height on the screen"
+						} else {
+							for _, mid := range instrsBetween(call, in) {
+								switch mid.(type) {
+								case *ssa.Call, *ssa.Go, *ssa.Defer:
+									okArg, why = false, "something is called between building the frame and writing it (at "+P.InstrPos(mid)+"): if that releases the state lock, a resize slips in and the stale frame of the old height is written last"
+								}
+							}
+						}
+					}
 				}
 			}
-			c.check(okArg, fname+"/terminal-write", P.InstrPos(in), fname, "the terminal receives view() of the same state",
-				"something other than the frame built by view() is handed to the terminal: its height is not that of the terminal")
+			c.check(okArg, fname+"/terminal-write", P.InstrPos(in), fname, "the terminal receives view() of the same state, written at once", why)
 		})
 	}
 	c.info("terminal_writes", n)
